@@ -230,9 +230,104 @@ def search(ctx, sr, mism):
                 scene.path_tokens(pops, rule), FB(1.0)))
             meta.append((pops, rule, zx, False))
     ctx.cov["magnified_scenes_searched"] = len(scenes)
-    if scenes:
-        return bool(eval_scenes(ctx, scenes, meta, what="zoom"))
-    return False
+    if scenes and eval_scenes(ctx, scenes, meta, what="zoom"):
+        return True
+    return climb(ctx, sr, cand[:6])
+
+
+def climb(ctx, sr, cand):
+    """Directed search, second stage: starting from the scenes on which crate and model differ most, move the control
+    points a little at a time in whatever direction makes the two pictures differ MORE (both are cheap to run on these
+    small surfaces), then magnify the most different variants and evaluate the statement on the crate's output."""
+    rng = ctx.rng
+    seeds = []
+    for i, k in cand:
+        hdr, ops = scene.split_ops(sr.aug[i])
+        if k >= len(ops) or not ops[k].startswith("fill "):
+            continue
+        t = ops[k].split()
+        rule, nops = int(t[2]), int(t[3])
+        j, pops = 4, []
+        for _ in range(nops):
+            nn = {"M": 2, "L": 2, "Q": 4, "C": 6, "Z": 0}[t[j]]
+            vals = [bits_f32(int(v)) for v in t[j + 1:j + 1 + nn]]
+            kind = t[j]
+            j += 1 + nn
+            if kind == "C" and j < len(t) and t[j] == "K":
+                j += 2 + 6 * int(t[j + 1])
+            pops.append((kind, vals))
+        xf = scene.IDENT
+        for o in ops[:k]:
+            if o.startswith("xf "):
+                xf = tuple(bits_f32(int(v)) for v in o.split()[1:7])
+        det = xf[0] * xf[3] - xf[1] * xf[2]
+        if det == 0 or not all(geom.finite(v, 0.0) for _, vs in pops for v in vs):
+            continue
+        W, H = int(hdr.split()[2]), int(hdr.split()[3])
+        seeds.append((pops, rule, xf, W, H, abs(det) ** 0.5))
+    if not seeds:
+        return False
+
+    def line_of(cid, pops, rule, xf, W, H, z=1.0, white=False):
+        toks = []
+        for kind, vals in pops:
+            toks.append(" ".join([kind] + [str(FB(v)) for v in vals] + (["K", "0"] if kind == "C" else [])))
+        zx = tuple(v * z for v in xf)
+        W2, H2 = int(W * z), int(H * z)
+        return "scene %d %d %d I %s ; xf %s ; fill %s solid ffffffff 3 %d 1" % (
+            cid, W2, H2, " ".join(["00000000"] * (W2 * H2)), scene.xf_tokens(zx), scene.path_tokens(toks, rule), FB(1.0))
+
+    def diff_of(srr, i):
+        try:
+            a = srr.impl[i][1].parse()["surface"]; b = srr.model[i][1].parse()["surface"]
+            return sum(abs((int(x, 16) >> 24) - (int(y, 16) >> 24)) for x, y in zip(a, b))
+        except Exception:
+            return -1
+
+    best = []
+    for pops, rule, xf, W, H, sc_ in seeds:
+        cur, cur_d = pops, None
+        for it in range(10):
+            variants = [cur]
+            for _ in range(20):
+                v = [(kk, list(vs)) for kk, vs in cur]
+                for _ in range(rng.choice([1, 1, 2])):
+                    q = rng.randrange(len(v))
+                    if v[q][1]:
+                        c = rng.randrange(len(v[q][1]))
+                        v[q][1][c] += rng.choice([-2.0, -1.0, -0.5, -0.25, 0.25, 0.5, 1.0, 2.0]) / sc_
+                variants.append(v)
+            lines = [line_of(900000 + n, v, rule, xf, W, H) for n, v in enumerate(variants)]
+            try:
+                srr = sc.run(lines)
+            except Exception:
+                break
+            ds = [diff_of(srr, n) for n in range(len(variants))]
+            m = max(range(len(variants)), key=lambda n: ds[n])
+            if cur_d is not None and ds[m] <= cur_d:
+                continue
+            cur, cur_d = variants[m], ds[m]
+        if cur_d:
+            best.append((cur_d, cur, rule, xf, W, H))
+    best.sort(key=lambda t: -t[0])
+    scenes, meta = [], []
+    for d, pops, rule, xf, W, H in best[:4]:
+        for z in (1.0, 5.0, 12.0):
+            if max(W, H) * z > 200:
+                continue
+            ln = line_of(950000 + len(scenes), pops, rule, xf, W, H, z)
+            toks = scene.split_ops(ln)[1][1].split()
+            np_ = int(toks[3])
+            # path tokens of the scene line, as eval_scenes expects them
+            j, ptoks = 4, []
+            for _ in range(np_):
+                nn = {"M": 2, "L": 2, "Q": 4, "C": 6, "Z": 0}[toks[j]]
+                ptoks.append(" ".join(toks[j:j + 1 + nn] + (["K", "0"] if toks[j] == "C" else [])))
+                j += 1 + nn + (2 if toks[j] == "C" else 0)
+            scenes.append(ln)
+            meta.append((ptoks, rule, tuple(v * z for v in xf), False))
+    ctx.cov["hill_climbed_scenes_searched"] = len(scenes)
+    return bool(scenes) and bool(eval_scenes(ctx, scenes, meta, what="climb"))
 
 
 def nontrivial(sr, i):
